@@ -11,11 +11,13 @@ const (
 	verifPopBeforeWait = iota
 	verifPopCancelBroadcastDone
 	verifSeqnoBeforeCommit
-	verifLoopRequest // the event loop has received an API request and not yet handled it
-	verifPopTake     // a stream writer is about to take the next RPC out of its queue
+	verifLoopRequest   // the event loop has received an API request and not yet handled it
+	verifPopTake       // a stream writer is about to take the next RPC out of its queue
+	verifSendValidated // a validated message is about to be handed to the event loop
 )
 
 var (
+	verifYieldMsgFn       func(msg *Message, point int)
 	verifYieldQueueFn     func(q *rpcQueue, point int)
 	verifYieldFn          func(point int)
 	verifObserveSendRPCFn func(p peer.ID, out *RPC)
@@ -40,5 +42,11 @@ func verifYieldQueue(q *rpcQueue, point int) {
 		q.queueMu.Unlock()
 		f(q, point)
 		q.queueMu.Lock()
+	}
+}
+
+func verifYieldMsg(msg *Message, point int) {
+	if f := verifYieldMsgFn; f != nil {
+		f(msg, point)
 	}
 }
